@@ -204,15 +204,18 @@ def cleanInvalidate (sem : ScmSem σ κ) (new : List (NewEntry σ)) (st : St σ 
 /-- the inline switch attempt for entry `e` at path `p` -/
 def trySwitch (sem : ScmSem σ κ) (new : List (NewEntry σ)) (e : OldEntry σ) (p : Comps) (st : St σ κ) :
     St σ κ × Bool :=
-  match findNew new e.dir, e.digest, e.spec with
-  | some n, some _, some os =>
-    if sem.canSwitch os n.spec && existsWs st p then
-      match contentAt st.fs (.ws p) with
-      | some k => (emitSet (.scmSwitch p (sem.switch os n.spec k).2) p (sem.switch os n.spec k).1 st,
-                   (sem.switch os n.spec k).2)
-      | none => (emit (.scmSwitch p false) st, false)       -- no checkout of the SCM there: git fails
-    else (st, false)
-  | _, _, _ => (st, false)
+  match findNew new e.dir with
+  | none => (st, false)
+  | some n =>
+    match e.spec with
+    | none => (st, false)
+    | some os =>
+      if e.digest.isSome && sem.canSwitch os n.spec && existsWs st p then
+        match contentAt st.fs (.ws p) with
+        | some k => (emitSet (.scmSwitch p (sem.switch os n.spec k).2) p (sem.switch os n.spec k).1 st,
+                     (sem.switch os n.spec k).2)
+        | none => (emit (.scmSwitch p false) st, false)       -- no checkout of the SCM there: git fails
+      else (st, false)
 
 /-- move workspace path `p` to a fresh attic directory and register it -/
 def moveAway (e : OldEntry σ) (p : Comps) (st : St σ κ) : St σ κ :=
@@ -221,6 +224,13 @@ def moveAway (e : OldEntry σ) (p : Comps) (st : St σ κ) : St σ κ :=
     { st with nextAttic := n + 1, wsMissing := st.wsMissing || p.isEmpty,
               plain := (st.plain.filter (fun q => !isPrefix p q)) ++ (if p.length ≤ 1 then [] else [p.dropLast]) }
   emit (.regAttic n [] e.spec) { st1 with atticReg := setReg st1.atticReg (n, []) e.spec }
+
+/-- `scmDigest == checkoutState.get(scmDir, (None, None))[0]`; an invalidated digest (`False`)
+equals nothing, not even a missing new entry (`None`) -/
+def unchanged (new : List (NewEntry σ)) (e : OldEntry σ) : Bool :=
+  match e.digest, findNew new e.dir with
+  | some d, some n => d == n.digest
+  | _, _ => false
 
 /-- one iteration of the switch-or-attic loop for the (snapshot) entry `e` -/
 def loopStep (sem : ScmSem σ κ) (atticEnabled : Bool) (new : List (NewEntry σ))
@@ -236,7 +246,7 @@ def loopStep (sem : ScmSem σ κ) (atticEnabled : Bool) (new : List (NewEntry σ
                else st
     .ok (dropOld e.dir st1, tr)
   | none =>
-    if e.digest == (findNew new e.dir).map (·.digest) then .ok (st, tr)        -- unchanged: keep
+    if unchanged new e then .ok (st, tr)        -- digest unchanged: keep
     else
       let sw := trySwitch sem new e p st
       if sw.2 then
@@ -288,7 +298,7 @@ structure Flags where
 
 /-- `compareDirectoryState` restricted to the SCM part -/
 def sameDirs (old : List (OldEntry σ)) (new : List (NewEntry σ)) : Bool :=
-  old.all (fun e => e.digest.isSome && (findNew new e.dir).map (·.digest) == e.digest) &&
+  old.all (fun e => unchanged new e) &&
   new.all (fun n => old.any (fun e => e.dir == n.dir))
 
 /-- `_cookCheckoutStep` (not --build-only).  `indet`: the step is not deterministic (a checkout
